@@ -77,11 +77,17 @@ def w1_cases(ctx):
 def w9_cases(ctx, n, n_src=None):
     out = [{"k": "w9", "seed": ctx.seed, "i": i} for i in range(n)]
     out += [{"k": "w9src", "seed": ctx.seed, "i": i} for i in range(n_src if n_src is not None else n // 4)]
+    # a constant beside each of its look-alikes, big containers differing in one slot's type: every pair in the thorough tier,
+    # a seed-rotated third in the quick tier
+    import gen_const
+    npairs = len(gen_const.lookalike_pairs())
+    idx = list(range(npairs)) if ctx.tier != "quick" else [j for j in range(npairs) if (j + ctx.seed) % 3 == 0]
+    out += [{"k": "w9", "seed": ctx.seed, "i": 100000 + j, "pair": j} for j in idx]
     return out
 
 
 def corpus_cases(ctx, v, n_files=0, all_files=False, n_w3=0, w4=True, w1=True, modes=0, w3_size=1.0,
-                 max_file_bytes=None, w4_filter=None, w1_max_bytes=None, max_w4_bytes=None, n_extra=0, all_extra=False):
+                 max_file_bytes=None, w4_filter=None, w1_max_bytes=None, max_w4_bytes=None, n_extra=0, all_extra=False, n_w9=None):
     """List of case descriptors for interpreter v (deterministic in ctx.seed)."""
     cases = []
     if w1:
@@ -123,6 +129,19 @@ def corpus_cases(ctx, v, n_files=0, all_files=False, n_w3=0, w4=True, w1=True, m
         # W4a: the same generated programs re-lined through the AST (real compiler, hostile line numbers)
         for i in range(max(4, n_w3 // 3)):
             cases.append({"k": "ast", "seed": ctx.seed, "i": i, "base": {"k": "gen", "seed": ctx.seed, "i": i, "size": w3_size}})
+    if n_w3:
+        # W4b: programs whose identifiers and texts are rewritten through the AST (names the parser would have normalised
+        # or refused, texts no source file can hold); function-rich hand-written bases first, then generated programs
+        nb = len(gen_w4.ASTNAME_BASES)
+        for i in range(nb + max(4, n_w3 // 4)):
+            base = {"k": "src", "id": "namebase%d" % i, "text": gen_w4.ASTNAME_BASES[i]} if i < nb else \
+                   {"k": "gen", "seed": ctx.seed, "i": i, "size": w3_size}
+            cases.append({"k": "astnames", "seed": ctx.seed, "i": i, "base": base})
+    if n_w9 is None:
+        n_w9 = max(24, n_w3 // 2) if n_w3 else 0
+    if n_w9:
+        # W9: code objects whose constants and names are replaced by hostile values (not compiler output)
+        cases.extend(w9_cases(ctx, n_w9))
     if w4:
         if w4_filter is None:
             cases.extend(gen_w4.twin_sequences(pyver(v)))
